@@ -440,10 +440,130 @@ pub fn run(run: &mut Run) -> PResult {
         st.flush(run, "all arrangements of sizes 2..4 over 12 symbols", "exhaustive", Some(144 + 1728 + 20736), "5 cards, blank, 0xFFFFFFFF, a flagged card, two one-bit corruptions, 1, a suit-less card");
     }
 
+    // E4: boundary-value base hands (first and last ordinal of every category) with every kind of
+    // defect in every slot, best five first and best five last
+    {
+        let mut st = Stats::new();
+        let t = poker::tables();
+        let bounds: [u16; 20] = [1, 2, 9, 10, 11, 166, 167, 322, 323, 1599, 1600, 1609, 1610, 2467, 2468, 3325, 3326, 6185, 6186, 7462];
+        for v in bounds {
+            let five: Vec<u32> = t.rep[v as usize].iter().map(|c| card::BY_CI[*c as usize]).collect();
+            let extras: Vec<u32> = card::BY_CI.iter().copied().filter(|w| !five.contains(w)).take(2).collect();
+            for n in 2..=7usize {
+                let mut base: Vec<u32> = five.iter().copied().chain(extras.iter().copied()).take(n).collect();
+                for arrangement in 0..2 {
+                    if arrangement == 1 {
+                        base.reverse();
+                    }
+                    // the clean base itself
+                    match check_hand(&base) {
+                        Ok(k) => st.note(&base, k),
+                        Err(f) => {
+                            st.flush(run, "boundary-value base hands x defect x slot", "structured-exhaustive", None, "");
+                            return report(run, &base, &f);
+                        }
+                    }
+                    for s in 0..n {
+                        let mut bad: Vec<u32> = vec![0, u32::MAX, base[s] | card::PAIR, base[s] | card::QUADS, base[s] ^ 1, base[s] ^ 0x1000, base[s] & !0xF000];
+                        for j in 0..n {
+                            if j != s {
+                                bad.push(base[j]); // duplicate of another slot
+                            }
+                        }
+                        for b in bad {
+                            let mut ws = base.clone();
+                            ws[s] = b;
+                            match check_hand(&ws) {
+                                Ok(k) => st.note(&ws, k),
+                                Err(f) => {
+                                    st.flush(run, "boundary-value base hands x defect x slot", "structured-exhaustive", None, "");
+                                    return report(run, &ws, &f);
+                                }
+                            }
+                        }
+                    }
+                }
+            }
+        }
+        st.flush(run, "boundary-value base hands x defect x slot", "structured-exhaustive", None, "bases = a hand at the first and last ordinal of each of the 9 categories (royal flush, steel wheel, ... 7-5-4-3-2), sizes 2..7, best five first / last; defects = blank, 0xFFFFFFFF, flagged, bit flips, suit-less, duplicate of every other slot; in every slot");
+    }
+
+    // E5: every valid six-card hand (and a stratum of the seven-card hands), ascending and
+    // descending: validated value = unvalidated value, non-zero (no model needed; C02 ties both to the model)
+    {
+        use crate::engine::enumerate::{choose, par_tuples, Acc};
+        struct AV {
+            n: u64,
+            fail: Option<Vec<u32>>,
+        }
+        impl Acc for AV {
+            fn merge(&mut self, o: Self) {
+                self.n += o.n;
+                if self.fail.is_none() {
+                    self.fail = o.fail;
+                }
+            }
+            fn failed(&self) -> bool {
+                self.fail.is_some()
+            }
+        }
+        let seed = run.seed;
+        let a6 = par_tuples::<6, AV>(52, true, || AV { n: 0, fail: None }, |acc, c| {
+            let w = words_of_ci(c);
+            let mut wd = w;
+            wd.reverse();
+            acc.n += 1;
+            for a in [w, wd] {
+                let ok = guard(|| {
+                    let h = Six::from(a);
+                    let v = h.hand_rank_value_validated();
+                    v != 0 && v == h.hand_rank_value() && h.hand_rank_validated().value == v && h.is_valid()
+                });
+                if ok != Ok(true) {
+                    acc.fail = Some(a.to_vec());
+                    return false;
+                }
+            }
+            true
+        });
+        run.generator("all valid six-card hands, ascending + descending: validated = unvalidated", "exhaustive", Some(choose(52, 6)), a6.n, 0, "trivial by the rule (no defect); closes the 'otherwise returns the same value' clause over all six-card hands");
+        if let Some(ws) = &a6.fail {
+            let f = check_hand(ws).err().unwrap_or(("C04.same_as_unvalidated", "validated and unvalidated ranking disagree".into()));
+            return report(run, ws, &f);
+        }
+        let stratum: u64 = if thorough { 1 } else { 16 };
+        let a7 = par_tuples::<7, AV>(52, true, || AV { n: 0, fail: None }, |acc, c| {
+            if stratum > 1 && engine::mix2(seed ^ 0xC047, super::multi::pack(c)) % stratum != 0 {
+                return true;
+            }
+            let w = words_of_ci(c);
+            let mut wd = w;
+            wd.reverse();
+            acc.n += 1;
+            for a in [w, wd] {
+                let ok = guard(|| {
+                    let h = Seven::from(a);
+                    let v = h.hand_rank_value_validated();
+                    v != 0 && v == h.hand_rank_value() && h.hand_rank_validated().value == v && h.is_valid()
+                });
+                if ok != Ok(true) {
+                    acc.fail = Some(a.to_vec());
+                    return false;
+                }
+            }
+            true
+        });
+        run.generator(if thorough { "all valid seven-card hands, ascending + descending: validated = unvalidated" } else { "valid seven-card hands (seeded 1-in-16 stratum), ascending + descending: validated = unvalidated" }, if thorough { "exhaustive" } else { "exhaustive-stratum" }, Some(choose(52, 7)), a7.n, 0, "trivial by the rule (no defect)");
+        if let Some(ws) = &a7.fail {
+            let f = check_hand(ws).err().unwrap_or(("C04.same_as_unvalidated", "validated and unvalidated ranking disagree".into()));
+            return report(run, ws, &f);
+        }
+    }
+
     // R: proptest
     {
         let st = engine::RStats::new();
-        let cases: u32 = if thorough { 16_000_000 } else { 2_000_000 };
+        let cases: u32 = (if thorough { 16_000_000 } else { 2_000_000 }) / if run.is_twin() { 4 } else { 1 };
         let res = pt::run_sharded(run.seed, 0xC04, cases, &spec_strategy, &|spec: Spec| {
             let ws = build(&spec, &alpha);
             match check_hand(&ws) {
